@@ -13,6 +13,19 @@ M = {
    "						Src:     Addr{Scheme: tname, Addr: m.Src},\n						Dst:     Addr{Scheme: tname, Addr: m.Dst},", "						Src:     Addr{Scheme: tname, Addr: m.Dst},\n						Dst:     Addr{Scheme: tname, Addr: m.Src},")],
  "c01-mbapp-last-part-offset": [("p/mbapp/fragment.go",
    "		offset = len(c.buf) - len(data)", "		offset = len(data) * partIndex")],
+ "c02-replay-filter-not-consulted": [("p/p2pke/session.go",
+   "		if !s.rp.ValidateCounter(uint64(nonce), MaxNonce) {\n			return false, nil, nil\n		}", "		s.rp.ValidateCounter(uint64(nonce), MaxNonce)")],
+ "c02-same-cipher-both-directions": [("p/p2pke/session.go",
+   "	outCipher = cs1.Cipher()\n	inCipher = cs2.Cipher()", "	if !initiator {\n		cs1, cs2 = cs2, cs1\n	}\n	outCipher = cs1.Cipher()\n	inCipher = cs1.Cipher()")],
+ "c02-expiry-only-checked-on-send": [("p/p2pke/session.go",
+   "func (s *Session) Deliver(out []byte, incoming []byte, now time.Time) (bool, []byte, error) {\n	if err := s.checkExpired(now); err != nil {\n		return false, nil, err\n	}", "func (s *Session) Deliver(out []byte, incoming []byte, now time.Time) (bool, []byte, error) {")],
+ "c02-message-limit-off-by-two": [("p/p2pke/session.go",
+   "	if atomic.LoadUint64(&s.nonce) >= MaxNonce {", "	if atomic.LoadUint64(&s.nonce) > MaxNonce+1 {"),
+   ("p/p2pke/session.go", "	if s.nonce >= MaxNonce {\n		return errors.New(\"session has exceeded message limit\")", "	if s.nonce > MaxNonce+2 {\n		return errors.New(\"session has exceeded message limit\")")],
+ "c06-initiator-counter-not-set-at-resphello": [("p/p2pke/session.go",
+   "		s.nonce = noncePostHandshake\n		s.hsIndex = 2", "		s.hsIndex = 2")],
+ "c06-initdone-accepted-in-any-state": [("p/p2pke/session.go",
+   "	case !s.isInit && s.hsIndex == 1 && nonce == nonceInitDone:", "	case !s.isInit && s.hsIndex >= 1 && nonce == nonceInitDone:")],
  "c10-frag-aggkey-without-addr": [("s/fragswarm/fragswarm.go",
    "	key := aggKey{addr: keyForAddr(x.Src), id: id}", "	key := aggKey{id: id}")],
  "c10-mbapp-allset-off-by-one": [("p/mbapp/bitmap.go",
